@@ -282,6 +282,9 @@ func (r *Run) Finish() int {
 			cov[k] = int64(0)
 		}
 	}
+	if r.Assumptions == nil {
+		r.Assumptions = []string{}
+	}
 	ev := map[string]any{
 		"property_id": r.Property,
 		"tier":        r.Tier,
